@@ -51,6 +51,34 @@ def known_class(kind, op, net, other=None):
     return None
 
 
+def contraction_side(net, ref, kind, fails):
+    """the IMPLEMENTATION's contractions on the current network object (same object along the whole
+    history, so anything remembered from before the last operation shows): both must expand to the
+    brute-force defining sum `ref` of the current state"""
+    from qib.tensor_network.tensor_network import to_full_tensor
+    stn = net.net
+    if tn.ref_size(stn)[0] * max(1, tn.ref_size(stn)[1]) > 6000:
+        return
+    try:
+        if net.num_tensors or net.num_open_axes:      # (the empty network is a KNOWN FINDING of C07)
+            c, am = net.contract_einsum()
+            c = np.asarray(c)
+            if tuple(c.shape[i] for i in am) != tuple(ref.shape) or not np.array_equal(to_full_tensor(c, am), ref):
+                fails.append((kind + ":contract_einsum-of-the-result-is-not-its-defining-sum", "defining sum", "differs"))
+        tids = sorted(t for t in stn.tensors if t != -1)
+        idle = any(all(t == -1 for t in b.tids) for b in stn.bonds.values())
+        if len(tids) >= 2 and not idle:
+            sc = tids[0]
+            for t in tids[1:]:
+                sc = [sc, t]
+            c, am, _ = net.contract_tree(sc)
+            c, am = np.asarray(c), [int(a) for a in am]
+            if tuple(c.shape[i] for i in am) != tuple(ref.shape) or not np.array_equal(to_full_tensor(c, am), ref):
+                fails.append((kind + ":contract_tree-of-the-result-is-not-its-defining-sum", "defining sum", "differs"))
+    except Exception as e:
+        fails.append((kind + ":contraction-of-the-result-raises:" + type(e).__name__, "contracts", repr(e)[:200]))
+
+
 def exec_sequence(desc, ops):
     """Run the implementation on an operation sequence.  Returns (records, fails, final):
     records: per op  dict(op=..., obs=None | (stn snapshot term data...)),
@@ -66,6 +94,7 @@ def exec_sequence(desc, ops):
         fails.append(("generator:initial-network-not-consistent", True, False))
         return rec, fails, net
     val = tn.ref_dense(net.net, net.data)
+    contraction_side(net, val, "initial", fails)
     others = []
     stopped = False
     for op in ops:
@@ -245,6 +274,7 @@ def exec_sequence(desc, ops):
             fails.append((kind + ":value-semantics", "shape %s" % (expect.shape,), "shape %s, differs" % (newval.shape,)))
         if tuple(net.shape) != tuple(newval.shape):
             fails.append((kind + ":shape-property", tuple(newval.shape), tuple(net.shape)))
+        contraction_side(net, newval, kind, fails)
         val = newval
     # aliasing: later operations on the merged network must not reach into the operands
     for other, osnap in others:
